@@ -104,7 +104,7 @@ def run(scn, stats):
 
 CFG = gen.cfg(items=0.12, retry=0.15, retry_cmd=True, p_loop=0.2)
 FLAGS = {"pause": 1, "pending": 1}
-CONTROLS = {"pause": 2, "pause2": 1, "resume": 1, "cancel": 1}
+CONTROLS = {"pause": 2, "pause2": 1, "resume": 1, "cancel": 1, "pause+resume": 1, "pause+resume+cancel": 1}
 
 
 def strategy(tier):
